@@ -103,6 +103,11 @@ def to_field(field, x):
     return field(list(x)) if isinstance(x, tuple) else field(x)
 
 
+def D(desc):
+    """descriptions are built lazily (only when a violation is reported)"""
+    return desc() if callable(desc) else desc
+
+
 def short(x, n=420):
     s = repr(x)
     return s if len(s) <= n else s[:n] + '...'
@@ -147,7 +152,7 @@ class Adapter:
 
     def seeds(self):
         """-> list of (thunk giving a real element, expected reference element or ANY, description)"""
-        out = [(lambda: self.G.identity, self.ref.identity, 'G.identity'), (lambda: self.G(), self.ref.identity, 'G()')]
+        out = [(lambda: self.G.identity, self.ref.identity, 'G.identity'), (self.default_ctor, self.ref.identity, 'G()')]
         for x in self.elems:
             if self.admissible(x):
                 for v in range(self.nvariants(x)):
@@ -155,6 +160,9 @@ class Adapter:
         if self.G.generator is not None:
             out.append((lambda: self.G.generator, ANY, 'G.generator'))
         return out
+
+    def default_ctor(self):
+        return self.G()
 
     def alphabet(self):
         els = [x for x in self.elems if self.admissible(x)]
@@ -421,8 +429,8 @@ class HCAd(Adapter):
 
     def raw(self, a):
         if self.coords == 'affine':
-            u, v = a.value
-            return (tuple(int(c) for c in u.value), tuple(int(c) for c in v.value))
+            u, v = a.value     # polynomials (encode() stores plain coefficient lists instead, see encdec)
+            return (tuple(int(c) for c in getattr(u, 'value', u)), tuple(int(c) for c in getattr(v, 'value', v)))
         return tuple(fe(c) for c in a.value)
 
     def ref_of_raw(self, raw):
@@ -457,7 +465,7 @@ class HCAd(Adapter):
         if self.coords == 'affine':
             return self.G((list(x[0]), list(x[1])))
         if x == self.ref.identity:
-            return self.G()
+            return self.default_ctor()
         f = self.field
         c = self.canonical_raw(x)
         # NB: check=True is unusable for Costello-Lauter divisors (AttributeError in __init__), see report
@@ -467,6 +475,11 @@ class HCAd(Adapter):
 
     def nvariants(self, x):
         return 1 if self.coords == 'affine' or x == self.ref.identity else 2
+
+    def default_ctor(self):
+        # HCDivisorCL() with the default check=True raises AttributeError (reads self.value before it is set);
+        # constructor validation is not part of C27, so the usable spelling is taken (see report)
+        return self.G(check=False) if self.coords == 'extended' else self.G()
 
 
 # ============================================================================== the search engine
@@ -483,6 +496,8 @@ class Ctx:
         self.skipped = 0
 
     def viol(self, law, cls, what):
+        if callable(what):
+            what = what()
         key = f'C27:{self.ad.key}:{law}' + (f':{cls}' if cls else '')
         self.part.violation(key, f'{self.ad.name}: {what}', dict(job=self.job, only=self.ad.name, key=key))
         self.failed = True
@@ -512,7 +527,7 @@ class Ctx:
         try:
             return True, fn(*args)
         except Exception as e:   # a real operation must not raise on valid elements
-            self.viol(law, (cls + ':' if cls else '') + 'raises', f'{desc} raised {type(e).__name__}: {e}')
+            self.viol(law, (cls + ':' if cls else '') + 'raises', f'{D(desc)} raised {type(e).__name__}: {e}')
             return False, None
 
     def denotes(self, r, law, cls, desc):
@@ -522,9 +537,9 @@ class Ctx:
             raw = ad.raw(r)
             return True, raw, ad.ref_of_raw(raw)
         except Invalid as e:
-            self.viol(law, cls, f'{desc} -> {short(getattr(r, "value", r))} is not a group element ({e})')
+            self.viol(law, cls, f'{D(desc)} -> {short(getattr(r, "value", r))} is not a group element ({e})')
         except Exception as e:
-            self.viol(law, cls, f'{desc} -> malformed result {short(getattr(r, "value", r))} ({type(e).__name__}: {e})')
+            self.viol(law, cls, f'{D(desc)} -> malformed result {short(getattr(r, "value", r))} ({type(e).__name__}: {e})')
         return False, None, None
 
     def expect(self, r, want, law, cls, desc):
@@ -532,7 +547,7 @@ class Ctx:
         if not ok:
             return False, None
         if got != want:
-            self.viol(law, cls, f'{desc} -> {short(raw)} denotes {short(got)}, reference says {short(want)}')
+            self.viol(law, cls, f'{D(desc)} -> {short(raw)} denotes {short(got)}, reference says {short(want)}')
             return False, raw
         return True, raw
 
@@ -591,10 +606,21 @@ def explore(cx, state_cap):
             alpha.append((b, y))
     canon_cache = {}
 
-    while queue:
+    late = list(ad.late_seeds()) if hasattr(ad, 'late_seeds') else []
+    while queue or (late and not cx.failed):
+        if not queue:
+            for thunk, x, how, law, cls in late:
+                cx.count()
+                ok, a = cx.call(law, cls, how, thunk)
+                if ok:
+                    ok, raw = cx.expect(a, x, law, cls, how)
+                    if ok:
+                        admit(a, x, raw, 0)
+            late = []
+            continue
         a, x, raw, depth = queue.popleft()
         # ---- invariant of the state: normalisation gives the unique canonical representation
-        ok, nrm = cx.call('normalize', '', f'normalize({short(raw)})', ad.normal, a)
+        ok, nrm = cx.call('normalize', '', lambda raw=raw: f'normalize({short(raw)})', ad.normal, a)
         cx.count(x != e)
         if ok:
             try:
@@ -614,7 +640,7 @@ def explore(cx, state_cap):
                     cx.skipped += 1
                     continue
                 cls = cx.pair_class(lx, rx)
-                desc = f'operation({short(ad.raw(l))}, {short(ad.raw(r))})'
+                desc = (lambda l=l, r=r: f'operation({short(ad.raw(l))}, {short(ad.raw(r))})')
                 part.transitions += 1
                 cx.count(not (lx == e and rx == e))
                 ok, res = cx.call('operation', cls, desc, G.operation, l, r)
@@ -624,7 +650,7 @@ def explore(cx, state_cap):
                         admit(res, want, rraw, depth + 1)
         want = cx.rop(x, x)
         if ad.admissible(want):
-            desc = f'operation2({short(raw)})'
+            desc = (lambda raw=raw: f'operation2({short(raw)})')
             part.transitions += 1
             cx.count(x != e)
             cls = 'identity' if x == e else ('to-identity' if want == e else 'generic')
@@ -636,7 +662,7 @@ def explore(cx, state_cap):
         else:
             cx.skipped += 1
         want = ref.inv(x)
-        desc = f'inversion({short(raw)})'
+        desc = (lambda raw=raw: f'inversion({short(raw)})')
         part.transitions += 1
         cx.count(x != e)
         ok, res = cx.call('inversion', ad.inv_class(x), desc, G.inversion, a)
@@ -652,16 +678,16 @@ def explore(cx, state_cap):
 
 def same(cx, r1, r2, law, cls, desc):
     """real == must hold between r1 and r2, and both must denote the same reference element"""
-    ok1, _, x1 = cx.denotes(r1, law, cls, desc + ' [lhs]')
-    ok2, _, x2 = cx.denotes(r2, law, cls, desc + ' [rhs]')
+    ok1, _, x1 = cx.denotes(r1, law, cls, lambda: D(desc) + ' [lhs]')
+    ok2, _, x2 = cx.denotes(r2, law, cls, lambda: D(desc) + ' [rhs]')
     if not (ok1 and ok2):
         return
     if x1 != x2:
-        cx.viol(law, cls, f'{desc}: lhs denotes {short(x1)}, rhs denotes {short(x2)}')
+        cx.viol(law, cls, f'{D(desc)}: lhs denotes {short(x1)}, rhs denotes {short(x2)}')
         return
     ok, eq = cx.call('equality', '', desc, lambda: r1 == r2)
     if ok and eq is not True:
-        cx.viol('equality', 'equal-elements', f'{desc}: {short(r1.value)} == {short(r2.value)} is {eq!r} '
+        cx.viol('equality', 'equal-elements', f'{D(desc)}: {short(r1.value)} == {short(r2.value)} is {eq!r} '
                 f'although both denote {short(x1)}')
 
 
@@ -681,24 +707,26 @@ def laws(cx, states, tier, repeat_ns=None):
     # ---- identity and inverse laws, operation2 vs general formula, in every state (cap 600)
     rid = G.identity
     for a, x in st[:600]:
-        d = short(ad.raw(a))
+        def d(a=a):
+            return short(ad.raw(a))
         cx.count(x != e)
-        for res, desc in ((G.operation(a, rid), f'operation({d}, identity)'), (G.operation(rid, a), f'operation(identity, {d})')):
-            same(cx, res, a, 'identity-law', '', desc + f' vs {d}')
+        same(cx, G.operation(a, rid), a, 'identity-law', 'a@e', lambda: f'operation({d()}, identity) vs {d()}')
+        same(cx, G.operation(rid, a), a, 'identity-law', 'e@a', lambda: f'operation(identity, {d()}) vs {d()}')
         ia = G.inversion(a)
         if ad.admissible(ref.inv(x)):
-            same(cx, G.operation(a, ia), rid, 'inverse-law', 'a@~a', f'operation({d}, inversion({d})) vs identity')
-            same(cx, G.operation(ia, a), rid, 'inverse-law', '~a@a', f'operation(inversion({d}), {d}) vs identity')
-            same(cx, G.inversion(ia), a, 'inverse-law', '~~a', f'inversion(inversion({d})) vs {d}')
+            same(cx, G.operation(a, ia), rid, 'inverse-law', 'a@~a', lambda: f'operation({d()}, inversion({d()})) vs identity')
+            same(cx, G.operation(ia, a), rid, 'inverse-law', '~a@a', lambda: f'operation(inversion({d()}), {d()}) vs identity')
+            same(cx, G.inversion(ia), a, 'inverse-law', '~~a', lambda: f'inversion(inversion({d()})) vs {d()}')
         if ad.admissible(cx.rop(x, x)):
             sq = G.operation2(a)
-            same(cx, sq, G.operation(a, a), 'operation2-vs-operation', 'same-object', f'operation2({d}) vs operation({d}, {d})')
+            same(cx, sq, G.operation(a, a), 'operation2-vs-operation', 'same-object',
+                 lambda: f'operation2({d()}) vs operation({d()}, {d()})')
             same(cx, sq, G.operation(a, ad.make(x)), 'operation2-vs-operation', 'fresh-copy',
-                 f'operation2({d}) vs operation({d}, canonical copy)')
-            same(cx, sq, a @ a, 'operator', '@', f'operation2({d}) vs a @ a')
+                 lambda: f'operation2({d()}) vs operation({d()}, canonical copy)')
+            same(cx, sq, a @ a, 'operator', '@', lambda: f'operation2({d()}) vs a @ a')
             if x in alt:
                 same(cx, sq, G.operation(alt[x], a), 'operation2-vs-operation', 'other-representation',
-                     f'operation2({d}) vs operation({short(ad.raw(alt[x]))}, {d})')
+                     lambda: f'operation2({d()}) vs operation({short(ad.raw(alt[x]))}, {d()})')
     cx.flush()
     if cx.failed:
         return
@@ -731,7 +759,7 @@ def laws(cx, states, tier, repeat_ns=None):
                 cx.viol('associativity', '', f'(a@b)@c = {short(lhs.value)} != a@(b@c) = {short(rhs.value)} for '
                         f'a={short(ad.raw(a))} b={short(ad.raw(b))} c={short(ad.raw(c))}')
         elif tier == 'thorough' or cx.n % 7 == 0:
-            cx.expect(lhs, cx.rop(xy, z), 'associativity', 'vs-reference', f'({short(x)}@{short(y)})@{short(z)}')
+            cx.expect(lhs, cx.rop(xy, z), 'associativity', 'vs-reference', lambda: f'({short(x)}@{short(y)})@{short(z)}')
     cx.flush()
 
     # ---- equality / hash consistency after normalisation (all pairs of up to 150 states, spread)
@@ -781,8 +809,8 @@ def laws(cx, states, tier, repeat_ns=None):
         bases = L if len(L) <= 130 else L[:24]
         bases = bases + [(alt[x], x) for _, x in bases if x in alt]
         for a, x in bases:
-            up = R.naive_powers(ref, x, max(ns))
-            dn = R.naive_powers(ref, ref.inv(x), -min(ns))
+            up = R.naive_powers(ref, x, max(max(ns), 3))
+            dn = R.naive_powers(ref, ref.inv(x), max(-min(ns), 3))
             for n in ns:
                 want = up[n] if n >= 0 else dn[-n]
                 if not repeat_admissible(ad, up, dn, n):
@@ -790,7 +818,7 @@ def laws(cx, states, tier, repeat_ns=None):
                     continue
                 cls = 'n=0' if n == 0 else f'n={n}' if abs(n) == 1 else 'n>1' if n > 0 else 'n<-1'
                 cx.count(n not in (0, 1) and x != e)
-                desc = f'repeat({short(ad.raw(a))}, {n})'
+                desc = (lambda a=a, n=n: f'repeat({short(ad.raw(a))}, {n})')
                 ok, res = cx.call('repeat', cls, desc, G.repeat, a, n)
                 if ok:
                     cx.expect(res, want, 'repeat', cls, desc)
@@ -798,11 +826,11 @@ def laws(cx, states, tier, repeat_ns=None):
             for n in (-2, 0, 3):
                 if repeat_admissible(ad, up, dn, n):
                     want = up[n] if n >= 0 else dn[-n]
-                    cx.expect(a ^ n, want, 'operator', '^', f'{short(ad.raw(a))} ^ {n}')
+                    cx.expect(a ^ n, want, 'operator', '^', lambda: f'{short(ad.raw(a))} ^ {n}')
                     if G.is_additive:
-                        cx.expect(n * a, want, 'operator', 'n*a', f'{n} * {short(ad.raw(a))}')
+                        cx.expect(n * a, want, 'operator', 'n*a', lambda: f'{n} * {short(ad.raw(a))}')
                     if G.is_multiplicative:
-                        cx.expect(a ** n, want, 'operator', 'a**n', f'{short(ad.raw(a))} ** {n}')
+                        cx.expect(a ** n, want, 'operator', 'a**n', lambda: f'{short(ad.raw(a))} ** {n}')
         cx.flush()
 
     # ---- operator spellings of operation / inversion
@@ -876,7 +904,8 @@ def run_small(part, ad, job, tier, state_cap=60000):
         return
     guarded_laws(cx, states, tier)
     if len(part.samples) < 2 and len(ad.elems) > 3 and not cx.failed:
-        x, y = ad.elems[1], ad.elems[-1]
+        le = ad.law_elements()
+        x, y = le[1], le[-1]
         if ad.admissible(cx.rop(x, y)):
             part.sample(dict(group=ad.name, a=short(x, 80), b=short(y, 80),
                              real=short(ad.raw(ad.G.operation(ad.make(x), ad.make(y))), 120),
@@ -935,6 +964,8 @@ def job_small_curves(part, job, fg):
     kind, p, tier, general = job['kind'], job['p'], job['tier'], job.get('general_a', False)
     lams = list(range(2, p))
     curves = weierstrass_curves(p, general) if kind == 'W' else edwards_curves(p)
+    if 'part' in job:
+        curves = curves[job['part']::job['parts']]
     for a, c, ref in curves:
         elems = ref.elements()
         gen, order = max_order_point(ref, elems)
@@ -989,24 +1020,53 @@ def builtin_adapter(fg, curve, coords, tier):
         for k in ks:
             for v in range(ad.nvariants(mult[k])):
                 out.append((lambda k=k, v=v: ad.make(mult[k], v), mult[k], f'constructor variant {v} of {k}G'))
-        for m in (n - 1, n, n + 1):
-            out.append((lambda m=m: G.repeat(G.generator, m), ref.mul(m, gen), f'repeat(G, ord{m - n:+d})'))
         return out
+
+    def late_seeds():
+        return [(lambda m=m: G.repeat(G.generator, m), ref.mul(m, gen), f'repeat(generator, {m})', 'repeat', f'n=ord{m - n:+d}')
+                for m in (n - 1, n, n + 1)]
     ad.seeds = seeds
+    ad.late_seeds = late_seeds
     ad.alphabet = lambda: [ref.identity, gen, ref.inv(gen), mult[2]]
     ad.law_elements = lambda: [mult[k] for k in ks]
     return ad
 
 
 def boundary_exponents(n, tier):
-    js = [2, 3, 4, 5, 8, 16, 31, 32, 63, 64, 127, 128, 200, n.bit_length() - 1, n.bit_length()]
+    js = [2, 3, 4, 5, 8, 16, 32, 64, 128, n.bit_length() - 1, n.bit_length()]
     if tier == 'thorough':
-        js = sorted(set(js + list(range(2, n.bit_length() + 2, 7))))
+        js = sorted(set(js + [31, 63, 127, 200] + list(range(2, n.bit_length() + 2, 7))))
     ns = {0, 1, -1, 2, -2, 3, -3, n - 1, n, n + 1, -n, -n - 1, -n + 1, 2 * n + 1}
     for j in js:
         for d in (-1, 0, 1):
             ns.update((2**j + d, -(2**j + d)))
     return sorted(ns)
+
+
+def big_repeat(cx, bases, ns):
+    """repeat(a, n) against the reference (sum of reference doublings by the bits of n) for the exponents ns;
+    the first two bases get all exponents, the others only |n| < 2^17."""
+    ad, G, ref = cx.ad, cx.ad.G, cx.ad.ref
+    for i, (a, x) in enumerate(bases):
+        mine = ns if i < 2 else [m for m in ns if abs(m) < 2**17]
+        dbl = [x]
+        for _ in range(max(abs(m) for m in mine).bit_length()):
+            dbl.append(ref.op(dbl[-1], dbl[-1]))
+        for m in mine:
+            want = ref.identity
+            for i in range(abs(m).bit_length()):
+                if (abs(m) >> i) & 1:
+                    want = ref.op(want, dbl[i])
+            if m < 0:
+                want = ref.inv(want)
+            cls = 'n=0' if m == 0 else f'n={m}' if abs(m) == 1 else 'n>1' if m > 0 else 'n<-1'
+            cx.count(m not in (0, 1) and x != ref.identity)
+            desc = (lambda a=a, m=m: f'repeat({short(ad.raw(a), 160)}, {m})')
+            ok, res = cx.call('repeat', cls, desc, G.repeat, a, m)
+            if ok:
+                cx.expect(res, want, 'repeat', cls, desc)
+    cx.flush()
+    cx.part.note('repeat_exponents_big_curves', len(ns))
 
 
 def job_builtin(part, job, fg):
@@ -1047,7 +1107,7 @@ def job_builtin(part, job, fg):
                 cls = cx.pair_class(x, y)
                 cx.count(x != ref.identity or y != ref.identity)
                 part.transitions += 1
-                desc = f'operation({short(ad.raw(a))}, {short(ad.raw(b))})'
+                desc = (lambda a=a, b=b: f'operation({short(ad.raw(a))}, {short(ad.raw(b))})')
                 ok, res = cx.call('operation', cls, desc, G.operation, a, b)
                 if ok:
                     cx.expect(res, cx.rop(x, y), 'operation', cls, desc)
@@ -1056,26 +1116,7 @@ def job_builtin(part, job, fg):
     bases = [(G.generator, gen), (G.operation2(G.generator), ad.mult[2]), (G.identity, ref.identity),
              (G.inversion(G.operation(G.operation2(G.generator), G.generator)), ad.mult[-3])]
     ns = boundary_exponents(n, tier)
-    if isinstance(ref.F, R.Fp2) and tier == 'quick':
-        ns = ns[::2] + [n - 1, n, n + 1]
-    for a, x in bases:
-        dbl = [x]
-        for _ in range(max(abs(m) for m in ns).bit_length()):
-            dbl.append(ref.op(dbl[-1], dbl[-1]))
-        for m in ns:
-            want = ref.identity
-            for i in range(abs(m).bit_length()):
-                if (abs(m) >> i) & 1:
-                    want = ref.op(want, dbl[i])
-            if m < 0:
-                want = ref.inv(want)
-            cls = 'n=0' if m == 0 else f'n={m}' if abs(m) == 1 else 'n>1' if m > 0 else 'n<-1'
-            cx.count(m not in (0, 1) and x != ref.identity)
-            desc = f'repeat({short(ad.raw(a), 160)}, {m})'
-            ok, res = cx.call('repeat', cls, desc, G.repeat, a, m)
-            if ok:
-                cx.expect(res, want, 'repeat', cls, desc)
-    cx.flush()
+    big_repeat(cx, bases, ns)
     if job['coords'] == 'projective' and job['curve'] == 'secp256k1':
         part.sample(dict(group=ad.name, states=len(states), repeat_exponents=len(ns), bases=len(bases)))
 
@@ -1207,7 +1248,7 @@ def job_kummer(part, job, fg):
     f = [int(c) for c in K.f.value]
     ref = R.RefMumford(p, f, 2)
     n = K.order       # declared; validated below in the reference Cantor arithmetic
-    for coords in ('extended', 'affine'):
+    for coords in (job['coords'],):
         if coords == 'extended':
             G = K
         else:
@@ -1233,15 +1274,18 @@ def job_kummer(part, job, fg):
         ad.depth_limit = 2 if tier == 'quick' else 3
 
         def seeds(ad=ad, G=G):
-            out = [(lambda: G.identity, ref.identity, 'G.identity'), (lambda: G(), ref.identity, 'G()'),
+            out = [(lambda: G.identity, ref.identity, 'G.identity'), (ad.default_ctor, ref.identity, 'G()'),
                    (lambda: G.generator, gen, 'G.generator')]
             for k in range(-4, 5):
                 for v in range(ad.nvariants(mult[k])):
                     out.append((lambda k=k, v=v: ad.make(mult[k], v), mult[k], f'constructor variant {v} of {k}G'))
-            for m in (n - 1, n, n + 1):
-                out.append((lambda m=m: G.repeat(G.generator, m), ref.mul(m, gen), f'repeat(G, ord{m - n:+d})'))
             return out
+
+        def late_seeds(G=G):
+            return [(lambda m=m: G.repeat(G.generator, m), ref.mul(m, gen), f'repeat(generator, {m})', 'repeat', f'n=ord{m - n:+d}')
+                    for m in (n - 1, n, n + 1)]
         ad.seeds = seeds
+        ad.late_seeds = late_seeds
         ad.alphabet = lambda: [ref.identity, gen, ref.inv(gen), mult[2]]
         ad.law_elements = lambda: [mult[k] for k in range(-4, 5)]
         cx = Ctx(part, ad, job)
@@ -1254,25 +1298,8 @@ def job_kummer(part, job, fg):
         guarded_laws(cx, states, tier)
         if cx.failed:
             continue
-        ns = boundary_exponents(n, tier)
-        for a, x in [(G.generator, gen), (G.operation2(G.generator), mult[2])]:
-            dbl = [x]
-            for _ in range(max(abs(m) for m in ns).bit_length()):
-                dbl.append(ref.op(dbl[-1], dbl[-1]))
-            for m in ns:
-                want = ref.identity
-                for i in range(abs(m).bit_length()):
-                    if (abs(m) >> i) & 1:
-                        want = ref.op(want, dbl[i])
-                if m < 0:
-                    want = ref.inv(want)
-                cls = 'n=0' if m == 0 else f'n={m}' if abs(m) == 1 else 'n>1' if m > 0 else 'n<-1'
-                cx.count(m not in (0, 1))
-                desc = f'repeat({short(ad.raw(a), 160)}, {m})'
-                ok, res = cx.call('repeat', cls, desc, G.repeat, a, m)
-                if ok:
-                    cx.expect(res, want, 'repeat', cls, desc)
-        cx.flush()
+        big_repeat(cx, [(G.generator, gen), (G.operation2(G.generator), mult[2]), (G.identity, ref.identity)],
+                   boundary_exponents(n, tier))
 
 
 # ------------------------------------------------------------------------------ class-group constructor / reduction
@@ -1344,7 +1371,18 @@ def encdec(part, job, key, name, G, messages, valid, size_class=None):
         if why:
             part.violation(f'C27:{key}:encode:not-an-element', f'{name}: encode({m}) = ({short(M.value, 150)}, '
                            f'{short(Z.value, 150)}): {why}', dict(job=job, only=name))
-            continue
+        else:
+            # the encoded elements must be usable as group elements: inversion, operation, operation2, hashing
+            # must not raise on them (the laws themselves are checked on all elements by the search jobs)
+            try:
+                G.operation(M, G.inversion(M)), G.operation2(Z), G.operation(M, Z), hash(M), hash(Z), M == Z
+                why = None
+            except Exception as e:
+                why = f'{type(e).__name__}: {e}'
+            if why:
+                part.violation(f'C27:{key}:encode:unusable-element', f'{name}: encode({m}) = ({short(M.value, 150)}, '
+                               f'{short(Z.value, 150)}): inversion/operation/operation2/hash of the encoded elements '
+                               f'raises {why}', dict(job=job, only=name))
         try:
             got = G.decode(M, Z)
         except Exception as e:
@@ -1398,7 +1436,7 @@ def job_encdec(part, job, fg):
             encdec(part, job, f'{curve}/{coords}', f'{curve}/{coords}', G, message_alphabet(p // G.gap - 1, 0), valid)
     elif fam == 'HC':
         specs = [('kummer1271', None, None, None), ('DGS', 2**31 - 1, 1, 'affine'), ('DGS', 2**31 - 1, 2, 'affine'),
-                 ('DGS', 2**31 - 1, 2, 'extended'), ('DGS', 2**31 - 1, 3, 'affine'), ('DGS', 2**61 - 1, 2, 'affine'),
+                 ('DGS', 2**31 - 1, 2, 'extended'), ('DGS', 2**31 - 1, 3, 'affine'), ('DGS', 2**127 - 1, 2, 'affine'),
                  ('DGS', 2**19 - 1, 2, 'affine'), ('DGS', 2**19 - 1, 2, 'extended')]
         for cn, p, genus, coords in specs[job['lo']:job['hi']]:
             if cn == 'kummer1271':
@@ -1420,8 +1458,8 @@ def job_encdec(part, job, fg):
             gap = G.gap
             mmax = p // gap - 1 if coords == 'affine' else p // (2 * gap) - 1
 
-            def size_class(m, gap=gap):
-                return 'm*gap<2^53' if m * gap < 2**53 else 'm*gap>=2^53'
+            def size_class(m):
+                return 'm<2^53' if m < 2**53 else 'm>=2^53'
             encdec(part, job, f'HC/{coords}', f'HC({cn}, p={p}, genus={genus}, {coords})', G,
                    message_alphabet(mmax, dense if p < 2**20 else 0), valid, size_class)
     elif fam == 'Cl':
@@ -1463,8 +1501,10 @@ def jobs(tier, seed):
     for i in range(k):
         js.append(dict(kind='cl', tier=tier, deltas=ds[i::k]))
     for p in ([5, 7, 11, 13] if q else [5, 7, 11, 13, 17, 19, 23, 29, 31]):
-        js.append(dict(kind='W', tier=tier, p=p))
-        js.append(dict(kind='E', tier=tier, p=p))
+        parts = 1 if p < 11 else 3 if p < 17 else 6 if p < 29 else 10
+        for i in range(parts):
+            js.append(dict(kind='W', tier=tier, p=p, part=i, parts=parts))
+            js.append(dict(kind='E', tier=tier, p=p, part=i, parts=parts))
     for p in ([5, 7] if q else [5, 7, 11, 13]):
         js.append(dict(kind='W', tier=tier, p=p, general_a=True))
     for curve in ('Ed25519', 'Ed448', 'secp256k1', 'BN256', 'BN256_twist'):
@@ -1476,10 +1516,12 @@ def jobs(tier, seed):
     hs = hc_small_groups(tier)
     heavy = [h for h in hs if h[0] == 3 or (h[0] == 2 and h[1] >= 13)]
     light = [h for h in hs if h not in heavy]
-    js.append(dict(kind='hc', tier=tier, groups=light))
+    for i in range(3):
+        js.append(dict(kind='hc', tier=tier, groups=light[i::3]))
     for h in heavy:
         js.append(dict(kind='hc', tier=tier, groups=[h]))
-    js.append(dict(kind='kummer', tier=tier))
+    js.append(dict(kind='kummer', tier=tier, coords='extended'))
+    js.append(dict(kind='kummer', tier=tier, coords='affine'))
     js.append(dict(kind='encdec', tier=tier, family='QR', ls=[16, 20, 32, 64] + ([] if q else [128, 768])))
     js.append(dict(kind='encdec', tier=tier, family='SG'))
     js.append(dict(kind='encdec', tier=tier, family='HC', lo=0, hi=4))
